@@ -10,7 +10,7 @@ import SlipVerif.Driver.Util
        obs: -        | v<val> or ~       | 1 or 0      | -       | <n>     | m<i>:<v>,… (sorted; i = first key index eql to the stored key)
 
    object syntax (one token, no blanks):
-     N | n<id>:<f|b|r|s|d|l>:<num>/<den>; | c<id>:<cp>; | s<id>:<cp>.<cp>…; | y<cp>.<cp>…; | L<id>(<obj>*) | V<id>(<obj>*) | O<id>;
+     N | n<id>:<f|b|r|s|d|l|S|D>:<num>/<den>; (S, D: negative zero) | c<id>:<cp>; | s<id>:<cp>.<cp>…; | y<cp>.<cp>…; | L<id>(<obj>*) | V<id>(<obj>*) | O<id>;
 -/
 namespace SlipVerif.Driver.Equality
 open SlipVerif.Equality SlipVerif.HashTable
@@ -37,7 +37,9 @@ def parseCps : Nat → List Char → Option (List Nat × List Char)
 
 def parseRep : Char → Option NumRep
   | 'f' => some .fixnum | 'b' => some .bignum | 'r' => some .ratio
-  | 's' => some .single | 'd' => some .double | 'l' => some .long | _ => none
+  | 's' => some .single | 'd' => some .double | 'l' => some .long
+  | 'S' => some .single | 'D' => some .double   -- negative zero (the value is 0)
+  | _ => none
 
 /-- a slip list: the token sits on the first cell -/
 def mkList (id : Nat) : List Obj → Obj
